@@ -466,6 +466,7 @@ class Engine(object):
                           obligations=0, discharged=0, failed=0,
                           inconclusive=0, budget_exhausted=0)
         self.findings = []
+        self._finding_keys = {}
         self.notes = []            # NotModelled / inconclusive messages
         self.samples = []          # a few explored paths, for evidence
         self.labels = {}           # obligation label -> [n, discharged]
@@ -744,6 +745,8 @@ class Engine(object):
             return True
         if r == 'sat':
             self.stats['failed'] += 1
+            if self._seen_finding(label, detail):
+                return False
             # prefer a counterexample of moderate magnitude (replay uses
             # real exp/log); the verdict does not depend on it
             tame = [z3.And(x >= -40, x <= 40) for _, x in self.inputs +
@@ -785,6 +788,8 @@ class Engine(object):
             return True
         if r == 'sat':
             self.stats['failed'] += 1
+            if self._seen_finding(label, detail):
+                return False
             base = {}
             if self.model is None:
                 rr, mm = self._check()
@@ -837,11 +842,22 @@ class Engine(object):
             return
         if r == 'sat':
             self.stats['failed'] += 1
+            if self._seen_finding(label, detail):
+                return
             self.findings.append(Finding(label, 'exception', detail,
                                          list(self.trace), self.model_dict(m)))
         else:
             self.stats['inconclusive'] += 1
             self.notes.append('INCONCLUSIVE %s: unknown' % label)
+
+    def _seen_finding(self, label, detail):
+        """only the first few failures per (label, window) carry a model"""
+        key = label
+        if 'window=' in (detail or ''):
+            key = (label, detail.rsplit('window=', 1)[1])
+        n = self._finding_keys.get(key, 0)
+        self._finding_keys[key] = n + 1
+        return n >= 2
 
     def ok(self, label):
         """Record a trivially discharged obligation (concrete check passed)."""
